@@ -69,7 +69,10 @@ impl Execution {
         self.points.iter().map(|p| p.chosen).collect()
     }
     pub fn preemptions_before(&self, i: usize) -> usize {
-        self.points[..i].iter().filter(|p| p.chosen != 0 && p.last_still_enabled).count()
+        self.points[..i]
+            .iter()
+            .filter(|p| p.chosen != 0 && p.last_still_enabled)
+            .count()
     }
     pub fn preemptions(&self) -> usize {
         self.preemptions_before(self.points.len())
@@ -101,10 +104,25 @@ fn hook_wait(shared: &Arc<Shared>, task: usize, ev: Ev) {
 impl Explorer {
     pub fn new(n: usize) -> Explorer {
         let shared = Arc::new(Shared {
-            state: Mutex::new(State { status: vec![Status::NotStarted; n], granted: vec![false; n], held: HashMap::new(), results: vec![None; n], abandoned: false, active: false }),
+            state: Mutex::new(State {
+                status: vec![Status::NotStarted; n],
+                granted: vec![false; n],
+                held: HashMap::new(),
+                results: vec![None; n],
+                abandoned: false,
+                active: false,
+            }),
             cv: Condvar::new(),
         });
-        let pools = (0..n).map(|i| rayon::ThreadPoolBuilder::new().num_threads(1).thread_name(move |_| format!("verif-task-{}", i)).build().expect("pool")).collect();
+        let pools = (0..n)
+            .map(|i| {
+                rayon::ThreadPoolBuilder::new()
+                    .num_threads(1)
+                    .thread_name(move |_| format!("verif-task-{}", i))
+                    .build()
+                    .expect("pool")
+            })
+            .collect();
         let s2 = shared.clone();
         set_hook(Some(Arc::new(move |e: Event| {
             let task = TASK_ID.with(|t| t.get());
@@ -128,7 +146,13 @@ impl Explorer {
     }
 
     /// runs one execution: follows `prefix`, then always takes choice 0. `label` names events for replay checking.
-    pub fn run_once(&self, prefix: &[usize], expect_labels: Option<&[String]>, tasks: Vec<Task>, label: &dyn Fn(&Ev) -> String) -> Execution {
+    pub fn run_once(
+        &self,
+        prefix: &[usize],
+        expect_labels: Option<&[String]>,
+        tasks: Vec<Task>,
+        label: &dyn Fn(&Ev) -> String,
+    ) -> Execution {
         assert_eq!(tasks.len(), self.n);
         {
             let mut st = self.shared.state.lock().unwrap();
@@ -147,7 +171,9 @@ impl Explorer {
                 let r = std::panic::catch_unwind(std::panic::AssertUnwindSafe(t));
                 let v = match r {
                     Ok(v) => v,
-                    Err(p) => serde_json::json!({"task_panicked": crate::engine::panic_message(&p)}),
+                    Err(p) => {
+                        serde_json::json!({"task_panicked": crate::engine::panic_message(&p)})
+                    }
                 };
                 TASK_ID.with(|c| c.set(None));
                 let mut st = shared.state.lock().unwrap();
@@ -165,14 +191,24 @@ impl Explorer {
             let mut st = self.shared.state.lock().unwrap();
             let deadline = Instant::now() + Duration::from_secs(20);
             loop {
-                let quiet = st.status.iter().all(|s| matches!(s, Status::Waiting(_) | Status::Finished));
+                let quiet = st
+                    .status
+                    .iter()
+                    .all(|s| matches!(s, Status::Waiting(_) | Status::Finished));
                 if quiet {
                     break;
                 }
-                let (g, to) = self.shared.cv.wait_timeout(st, Duration::from_millis(500)).unwrap();
+                let (g, to) = self
+                    .shared
+                    .cv
+                    .wait_timeout(st, Duration::from_millis(500))
+                    .unwrap();
                 st = g;
                 if to.timed_out() && Instant::now() > deadline {
-                    exec.deadlock = Some(format!("no quiescent state within 20 s; statuses {:?}", st.status));
+                    exec.deadlock = Some(format!(
+                        "no quiescent state within 20 s; statuses {:?}",
+                        st.status
+                    ));
                     st.abandoned = true;
                     st.active = false;
                     self.shared.cv.notify_all();
@@ -198,9 +234,31 @@ impl Explorer {
                 }
             }
             if enabled.is_empty() {
-                let waits: Vec<String> = st.status.iter().enumerate().map(|(t, s)| format!("task {}: {:?} ", t, match s { Status::Waiting(e) => label(e), other => format!("{:?}", other) })).collect();
-                let held: Vec<String> = st.held.iter().map(|(id, t)| format!("{} held by task {}", label(&Ev::Lock(*id)), t)).collect();
-                exec.deadlock = Some(format!("no enabled task: {} ; {}", waits.join("; "), held.join("; ")));
+                let waits: Vec<String> = st
+                    .status
+                    .iter()
+                    .enumerate()
+                    .map(|(t, s)| {
+                        format!(
+                            "task {}: {:?} ",
+                            t,
+                            match s {
+                                Status::Waiting(e) => label(e),
+                                other => format!("{:?}", other),
+                            }
+                        )
+                    })
+                    .collect();
+                let held: Vec<String> = st
+                    .held
+                    .iter()
+                    .map(|(id, t)| format!("{} held by task {}", label(&Ev::Lock(*id)), t))
+                    .collect();
+                exec.deadlock = Some(format!(
+                    "no enabled task: {} ; {}",
+                    waits.join("; "),
+                    held.join("; ")
+                ));
                 st.abandoned = true;
                 st.active = false;
                 self.shared.cv.notify_all();
@@ -217,7 +275,10 @@ impl Explorer {
             let i = exec.points.len();
             let choice = if i < prefix.len() { prefix[i] } else { 0 };
             if choice >= enabled.len() {
-                exec.diverged = Some(format!("choice {} out of range at point {} (enabled {:?})", choice, i, enabled));
+                exec.diverged = Some(format!(
+                    "choice {} out of range at point {} (enabled {:?})",
+                    choice, i, enabled
+                ));
                 st.abandoned = true;
                 st.active = false;
                 self.shared.cv.notify_all();
@@ -231,7 +292,10 @@ impl Explorer {
             let lab = format!("t{}:{}", t, label(&ev));
             if let Some(exp) = expect_labels {
                 if i < exp.len() && i < prefix.len() && exp[i] != lab {
-                    exec.diverged = Some(format!("replaying a prefix diverged at point {}: expected {} got {}", i, exp[i], lab));
+                    exec.diverged = Some(format!(
+                        "replaying a prefix diverged at point {}: expected {} got {}",
+                        i, exp[i], lab
+                    ));
                     st.abandoned = true;
                     st.active = false;
                     self.shared.cv.notify_all();
@@ -241,7 +305,12 @@ impl Explorer {
             if let Ev::Lock(id) = ev {
                 st.held.insert(id, t);
             }
-            exec.points.push(Point { enabled: enabled.clone(), chosen: choice, last_still_enabled, label: lab });
+            exec.points.push(Point {
+                enabled: enabled.clone(),
+                chosen: choice,
+                last_still_enabled,
+                label: lab,
+            });
             st.granted[t] = true;
             st.status[t] = Status::Running;
             last = Some(t);
@@ -280,7 +349,14 @@ pub fn explore(
             stats.capped = true;
             break;
         }
-        let x = run(&prefix, if labels.is_empty() { None } else { Some(&labels) });
+        let x = run(
+            &prefix,
+            if labels.is_empty() {
+                None
+            } else {
+                Some(&labels)
+            },
+        );
         if let Some(d) = &x.diverged {
             return (stats, Some(d.clone()));
         }
